@@ -108,7 +108,16 @@ static std::string un_obs(const hll_union& u) {
   return os.str();
 }
 
+struct no_such_object {};
+static hll_sketch& SK(const std::string& id) { auto it = sks.find(atoi(id.c_str())); if (it == sks.end() || !it->second) throw no_such_object(); return *it->second; }
+static hll_union& UN(const std::string& id) { auto it = uns.find(atoi(id.c_str())); if (it == uns.end() || !it->second) throw no_such_object(); return *it->second; }
+
+static std::string step_(const std::vector<std::string>& w);
 static std::string step(const std::vector<std::string>& w) {
+  try { return step_(w); } catch (const no_such_object&) { return "bad-op"; }
+}
+
+static std::string step_(const std::vector<std::string>& w) {
   const std::string& op = w[0];
   if (op == "new") {
     int id = atoi(w[1].c_str());
@@ -119,49 +128,49 @@ static std::string step(const std::vector<std::string>& w) {
     int id = atoi(w[1].c_str());
     auto it = sks.find(id);
     if (it != sks.end() && it->second) { do_update(*it->second, w[2], w[3]); return short_obs(*it->second); }
-    auto& u = *uns.at(id);
+    auto& u = UN(w[1]);
     do_update(u, w[2], w[3]);
     return un_obs(u);
   }
   if (op == "copy") {
-    auto& s = *sks.at(atoi(w[1].c_str()));
+    auto& s = SK(w[1]);
     int nid = atoi(w[2].c_str());
     std::unique_ptr<hll_sketch> n(new hll_sketch(s));
     sks[nid] = std::move(n);
     return short_obs(*sks[nid]);
   }
   if (op == "conv") {
-    auto& s = *sks.at(atoi(w[1].c_str()));
+    auto& s = SK(w[1]);
     int nid = atoi(w[2].c_str());
     std::unique_ptr<hll_sketch> n(new hll_sketch(s, tt_of(w[3])));
     sks[nid] = std::move(n);
     return short_obs(*sks[nid]);
   }
-  if (op == "reset") { auto& s = *sks.at(atoi(w[1].c_str())); s.reset(); return short_obs(s); }
-  if (op == "obs") return full_obs(*sks.at(atoi(w[1].c_str())));
-  if (op == "raw") return raw_obs(*sks.at(atoi(w[1].c_str())));
+  if (op == "reset") { auto& s = SK(w[1]); s.reset(); return short_obs(s); }
+  if (op == "obs") return full_obs(SK(w[1]));
+  if (op == "raw") return raw_obs(SK(w[1]));
   if (op == "unew") {
     int id = atoi(w[1].c_str());
     uns[id].reset(new hll_union((uint8_t)atoi(w[2].c_str())));
     return un_obs(*uns[id]);
   }
   if (op == "umerge") {
-    auto& u = *uns.at(atoi(w[1].c_str()));
+    auto& u = UN(w[1]);
     int sid = atoi(w[2].c_str());
-    auto& s = *sks.at(sid);
+    auto& s = SK(w[2]);
     if (w[3] == "1") { u.update(std::move(s)); sks.erase(sid); }
     else u.update(s);
     return un_obs(u);
   }
   if (op == "ures") {
-    auto& u = *uns.at(atoi(w[1].c_str()));
+    auto& u = UN(w[1]);
     int nid = atoi(w[2].c_str());
     std::unique_ptr<hll_sketch> n(new hll_sketch(u.get_result(tt_of(w[3]))));
     sks[nid] = std::move(n);
     return full_obs(*sks[nid]);
   }
   if (op == "uest") {
-    auto& u = *uns.at(atoi(w[1].c_str()));
+    auto& u = UN(w[1]);
     const std::string& what = w[2];
     double v;
     if (what == "est") v = u.get_estimate();
@@ -171,7 +180,7 @@ static std::string step(const std::vector<std::string>& w) {
     else if (what == "ub2") v = u.get_upper_bound(2); else v = u.get_upper_bound(3);
     return "E " + vh::hex_f64(v) + " " + un_obs(u);
   }
-  if (op == "ureset") { auto& u = *uns.at(atoi(w[1].c_str())); u.reset(); return un_obs(u); }
+  if (op == "ureset") { auto& u = UN(w[1]); u.reset(); return un_obs(u); }
   return "bad-op";
 }
 
